@@ -286,6 +286,11 @@ theorem compS_labels (cx : Ctx) : ∀ (s : Stmt) (lp : LoopCtx) (st : St),
     simp only [compS]
     have he := compE_labels cx st.scopes e .val st.nl
     exact ⟨he.1, labelsIn_one_more he.2 _⟩
+  | panicS e =>
+    intro lp st
+    simp only [compS]
+    have he := compE_labels cx st.scopes e .val st.nl
+    exact ⟨he.1, labelsIn_one_more he.2 _⟩
   | ret e =>
     intro lp st
     cases e with
